@@ -18,6 +18,9 @@ Sub-checks (names usable with --only):
             per-word automaton, the level at which a wrong factor automaton is visible even if
             another pin word of the same permutation would mask it)
   history   BFS over histories of database / cache operations
+  wordauto  make_dfa_for_pinword(u) == own automaton of A* f(u1) A* ... A* == determinised
+            make_nfa_for_pinword(u), exactly on M, for every strict pin word up to length 10/13 and
+            every pin word of the pinword sub-check
   forms     the same basis as list / tuple / set / frozenset / one-shot iterators / Basis / reversed /
             with a repeated element / by keyword, through every entry point
   fresh     the list returned by pinwords_for_basis is damaged in place, everything asked again
@@ -516,6 +519,73 @@ def ref_factors(u):
     return out
 
 
+def check_word_automaton(part, u, D=None):
+    """make_dfa_for_pinword(u) against (ii) the own automaton of  A* f(u1) A* f(u2) ... A*  and
+    (i) the determinised make_nfa_for_pinword(u) where that route exists - exact language
+    equality on the pin-sequence language M (product BFS), so bordered / periodic words are covered
+    without decoding a long permutation.  Returns the number of product states."""
+    PW = _PW()
+    if D is None:
+        try:
+            D = PW.make_dfa_for_pinword(u)
+        except Exception as exc:  # noqa
+            part.violation("construct", {"pinword": u, "route": "make_dfa_for_pinword"},
+                           {"exception": repr(exc)})
+            return 0
+    MREF = F.m_reference()
+    try:
+        PD = to_plain(D)
+    except Exception as exc:  # noqa
+        part.violation("construct", {"pinword": u, "route": "make_dfa_for_pinword"}, {"exception": repr(exc)})
+        return 0
+    word, n = F.first_difference(PD, F.pinword_language_automaton(u), MREF)
+    part.add(1, 1)
+    if word is not None:
+        part.violation("wordauto", {"pinword": u, "against": "own A* f(u1) A* ... A*"},
+                       {"shortest_distinguishing_M_word": word, "library_accepts": PD.run(word),
+                        "factor_images": [F.factor_images(f) for f in F.pinword_factors(u)]})
+        return n
+    if hasattr(PW, "make_nfa_for_pinword"):
+        try:
+            from automata.fa.dfa import DFA
+            PN = to_plain(DFA.from_nfa(PW.make_nfa_for_pinword(u)))
+        except Exception as exc:  # noqa
+            part.violation("construct", {"pinword": u, "route": "make_nfa_for_pinword"},
+                           {"exception": repr(exc)})
+            return n
+        word, n2 = F.first_difference(PD, PN, MREF)
+        n += n2
+        part.add(1, 1)
+        if word is not None:
+            part.violation("wordauto", {"pinword": u, "against": "DFA.from_nfa(make_nfa_for_pinword)"},
+                           {"shortest_distinguishing_M_word": word, "library_accepts": PD.run(word)})
+    return n
+
+
+def strict_pinwords(n):
+    """Numeral followed by n-1 alternating direction letters (any first direction)."""
+    out = []
+    for q in "1234":
+        ws = [q]
+        for _ in range(n - 1):
+            ws = [w + c for w in ws
+                  for c in (F.DIRS if len(w) == 1 else (F.HORI if w[-1] in F.VERT else F.VERT))]
+        out.extend(ws)
+    return out
+
+
+def shard_wordauto(shard):
+    words, = shard
+    part = Partial()
+    n = 0
+    for u in words:
+        n += check_word_automaton(part, u)
+        if part.nviol:
+            break
+    part.bump("product_states", n)
+    return part
+
+
 def check_pinword(part, u, L, use_table=True):
     PW = _PW()
     target = F.decode_pinword(u)
@@ -526,6 +596,10 @@ def check_pinword(part, u, L, use_table=True):
                        {"exception": repr(exc)})
         return
     bit = BIT[target] if use_table else None
+    if use_table:
+        part.bump("product_states", check_word_automaton(part, u, D))
+        if part.nviol:
+            return
     acc = 0
     tot = 0
     for n in range(2, L + 1):
@@ -1509,6 +1583,17 @@ def run(ctx, only=None):
         ctx.bounds["pinword"] = {"pin_words": len(words), "max_pinword_length": maxu,
                                  "plus": "length 5 with factor lengths {2,3}, M-words to 10" if quick else "",
                                  "M_word_lengths": "2..%d" % Lu}
+    if want("wordauto"):
+        maxs = 10 if quick else 13
+        sw = [u for n in range(1, maxs + 1) for u in strict_pinwords(n)]
+        per = 400
+        for i in range(0, len(sw), per):
+            tasks.append(("wordauto", (sw[i:i + per],)))
+        ctx.bounds["wordauto"] = {"strict_pin_words": len(sw), "max_length": maxs,
+                                  "also": "every pin word of the pinword sub-check (all of length <= %d)" % (4 if quick else 5),
+                                  "compared_with": ["own automaton of A* f(u1) A* ... A*",
+                                                    "DFA.from_nfa(make_nfa_for_pinword)"],
+                                  "on": "all words of M (exact, product BFS)"}
     if want("history"):
         depth = 8 if quick else 12       # closure is reached at depth 4 / 5 (checked: else cap)
         models = [HBASES_QUICK] if quick else [HBASES_THOROUGH]
@@ -1621,6 +1706,8 @@ def shard_any(task):
         return shard_pinwords(payload)
     if kind == "history":
         return shard_history(payload)
+    if kind == "wordauto":
+        return shard_wordauto(payload)
     if kind == "forms":
         return shard_forms(payload)
     if kind == "fresh":
@@ -1694,6 +1781,13 @@ def replay(ctx, rec):
             _, viols = model.build(hist[:i])
             if viols:
                 ctx.violation("history", case, viols[0])
+                break
+    elif sub == "wordauto":
+        part = Partial()
+        check_word_automaton(part, case["pinword"])
+        for v in part.viols:
+            if v["case"].get("against") == case.get("against"):
+                ctx.violation("wordauto", case, v["detail"])
                 break
     elif sub == "forms":
         part = Partial()
